@@ -40,6 +40,8 @@ pub struct Globals {
     pub number_default: bool,
     /// `shl_limbs` (rule 23) is declared as `fn(&mut VecType, usize) -> Option<()>` in bigint.rs
     pub shl_limbs_ok: bool,
+    /// lib.rs has `pub use self::parse::parse_float;` (rule 27)
+    pub export_parse_float: bool,
 }
 
 impl Globals {
@@ -58,9 +60,18 @@ impl Globals {
         if table(&k) {
             return Some(k);
         }
+        // the string front-ends (rule 27) only see their own functions, and nobody sees theirs
+        if file.starts_with("front_") {
+            return None;
+        }
         let suffix = format!(":{}", key);
-        let mut found: Vec<String> =
-            self.fns.keys().chain(self.omitted.iter()).filter(|x| !x.contains("::") && x.ends_with(&suffix) && table(x)).cloned().collect();
+        let mut found: Vec<String> = self
+            .fns
+            .keys()
+            .chain(self.omitted.iter())
+            .filter(|x| !x.contains("::") && !x.starts_with("front_") && x.ends_with(&suffix) && table(x))
+            .cloned()
+            .collect();
         found.sort();
         found.dedup();
         if found.len() == 1 {
@@ -921,6 +932,9 @@ pub fn conv_ty_in(t: &syn::Type, self_ty: &Ty, t_is_limb: bool) -> R<Ty> {
                 let is_static = r.lifetime.as_ref().map(|l| l.ident == "static").unwrap_or(false);
                 if !is_static && rec(&s.elem)? == Ty::Int(IntTy::U64) {
                     return Ok(Ty::Slice);
+                }
+                if !is_static && rec(&s.elem)? == Ty::Int(IntTy::U8) {
+                    return Ok(Ty::Bytes);
                 }
             }
             rec(&r.elem)
